@@ -385,6 +385,26 @@ func c02(c *core.Ctx) {
 			}
 		}
 		c.Check("RunBlock:returns Seal result", "value-flow", ok, run.Pos(), "RunBlock returns the locally sealed block")
+		// the sealed block carries its OWN header: Seal fills a copy, otherwise the comparison of the received header with the computed one
+		// compares the header with itself
+		sealFn := c.Fn(cons + ".BlockAssembler.Seal")
+		cp := core.CallsIn(sealFn, c.Method("chain/types.Header", "Copy"))
+		nb := core.CallsIn(sealFn, c.FuncObj("chain/types.NewBlock"))
+		okc := len(cp) == 1 && len(nb) == 1
+		if okc {
+			okc = cp[0].Common().Args[0] == sealFn.Params[1] && core.Derived(cp[0].Value())[nb[0].Common().Args[0]]
+			// no field of the parameter header is written
+			for _, b := range sealFn.Blocks {
+				for _, in := range b.Instrs {
+					if st, isSt := in.(*ssa.Store); isSt {
+						if fa, isFA := st.Addr.(*ssa.FieldAddr); isFA && fa.X == sealFn.Params[1] {
+							okc = false
+						}
+					}
+				}
+			}
+		}
+		c.Check("Seal:fills-a-copy-of-the-header", "value-flow", okc, sealFn.Pos(), "Seal puts header.Copy() into the new block and writes no field of the header it was given")
 
 		// block.Confirms on the verified block is assigned only from VerifyNewConfirms (or nil) inside VerifyAndSeal
 		confirms := c.FieldVar("chain/types.Block", "Confirms")
@@ -499,6 +519,11 @@ func c02(c *core.Ctx) {
 				"the reload window is measured from the time of the stable block handed in (two Block.Time reads, MaxTxLifeTime; wall clock involved: %v)", clock)
 		}
 	})
+
+	// C02.6: "every transaction is well-formed, unexpired and not a replay" — the replay-protection clauses of C04 (identity, ancestor test,
+	// expiry window incl. box sub-transactions, intra-block uniqueness, canonical signatures) are necessary conditions of sound block
+	// acceptance as well and are evaluated here under their C04 keys
+	c04(c)
 
 	c.NotDecidedf("that the comparisons use the right constants and tolerances (one second), correctness of GetCorrectMiner's slot arithmetic (C13) and of execution (C01)")
 	c.NotDecidedf("effects of callees not in the frozen mutator list; equality of chain state before and after a rejection as a value")
